@@ -366,6 +366,7 @@ def applyOp (F : Facts) (fuel : Nat) (net : Net) : Op → Except String (Net × 
       .ok ({ x.1 with readers := x.1.readers.erase r ++ x.2 }, x.2)
     | none => .error "bad-op: copy of nothing"
   | .merge rs =>
+    if rs.length == 1 && rs.all net.readers.contains then .ok (net, rs) else   -- `return srs[0]`
     if rs.length < 2 || !allDistinct rs || !rs.all net.readers.contains then .error "bad-op: merge arguments" else
     match mkMerge net rs with
     | none => .error "bad-op: merge of a non-reader"
